@@ -199,11 +199,9 @@ func (x *fnExec) canAutoInline(fr *frame, fn *ssa.Function) bool {
 	// no recursion: callee must not be on the current stack (depth bound covers it) and must not contain Go/Select/Defer of closures
 	for _, b := range fn.Blocks {
 		for _, in := range b.Instrs {
-			switch t := in.(type) {
-			case *ssa.Go, *ssa.Select, *ssa.Send, *ssa.MakeClosure:
+			switch in.(type) {
+			case *ssa.Go, *ssa.MakeClosure:
 				return false
-			case *ssa.UnOp:
-				_ = t
 			}
 		}
 	}
@@ -551,15 +549,8 @@ func (p *Program) inPackage(fn *ssa.Function) bool {
 func (p *Program) effectsPass(fn *ssa.Function, e *effectSet) {
 	inPkg := p.inPackage(fn)
 	if !inPkg {
-		if fn.Pkg != nil && pureExternalPkgs[fn.Pkg.Pkg.Path()] {
-			// externals write only through pointers/slices we pass them; handled at call sites for known ones
-			if fn.Pkg.Pkg.Path() == "sort" {
-				e.top = true
-			}
-			return
-		}
-		if fn.Pkg != nil && fn.Pkg.Pkg.Path() == "sort" {
-			e.keys["E:*"] = true
+		if fn.Pkg != nil && (pureExternalPkgs[fn.Pkg.Pkg.Path()] || fn.Pkg.Pkg.Path() == "sort") {
+			// externals write only through the pointers/slices/closures we pass them: accounted at the call site
 			return
 		}
 		e.top = true
@@ -588,6 +579,14 @@ func (p *Program) effectsPass(fn *ssa.Function, e *effectSet) {
 			case *ssa.MapUpdate:
 				mt := t.Map.Type().Underlying().(*types.Map)
 				e.keys[mapPrefix(mt)] = true
+			case *ssa.Send:
+				e.keys["X:sends"] = true
+			case *ssa.Select:
+				for _, s := range t.States {
+					if s.Dir == types.SendOnly {
+						e.keys["X:sends"] = true
+					}
+				}
 			case ssa.CallInstruction:
 				if _, isGo := in.(*ssa.Go); isGo {
 					continue
@@ -623,6 +622,16 @@ func (p *Program) effectsPass(fn *ssa.Function, e *effectSet) {
 					}
 					e.add(p.effectsOf(f))
 					p.externalWriteEffects(f, cc, e)
+					if !p.inPackage(f) {
+						// closures handed to an external (sort.Search, sort.Slice, time.AfterFunc...) may be run by it
+						for _, a := range cc.Args {
+							if mc, ok := a.(*ssa.MakeClosure); ok {
+								if cf, ok := mc.Fn.(*ssa.Function); ok {
+									e.add(p.effectsOf(cf))
+								}
+							}
+						}
+					}
 				case *ssa.MakeClosure:
 					if cf, ok := f.Fn.(*ssa.Function); ok {
 						e.add(p.effectsOf(cf))
@@ -668,15 +677,31 @@ func (p *Program) externalWriteEffects(f *ssa.Function, cc *ssa.CallCommon, e *e
 		strings.HasPrefix(name, "io.ReadFull"), strings.Contains(name, "rand.Read"), strings.Contains(name, "(*math/rand.Rand).Read"):
 		e.keys["E:uint8"] = true
 		e.keys["E:uint8"] = true
+	case strings.HasPrefix(name, "sort.Search"):
+		// pure binary search
 	case strings.HasPrefix(name, "sort."), strings.HasPrefix(name, "slices.Sort"):
 		for _, a := range cc.Args {
 			if sl, ok := a.Type().Underlying().(*types.Slice); ok {
 				for _, l := range leaves(sl.Elem()) {
 					e.keys["E:"+typeName(sl.Elem())+l.path] = true
 				}
-			} else {
-				e.top = true
+				continue
 			}
+			if mi, ok := a.(*ssa.MakeInterface); ok {
+				if sl, ok := mi.X.Type().Underlying().(*types.Slice); ok {
+					for _, l := range leaves(sl.Elem()) {
+						e.keys["E:"+typeName(sl.Elem())+l.path] = true
+					}
+					continue
+				}
+			}
+			if _, ok := a.(*ssa.MakeClosure); ok {
+				continue
+			}
+			if _, ok := a.Type().Underlying().(*types.Signature); ok {
+				continue
+			}
+			e.top = true
 		}
 	}
 }
@@ -740,10 +765,8 @@ func (p *Program) invokeEffects(cc *ssa.CallCommon, e *effectSet) {
 		// wrapper functions for embedded promotion: unwrap by effects of the wrapper itself
 		e.add(p.effectsOf(f))
 	}
-	if cc.Method.Exported() || ifaceExported(rt) {
-		// could be implemented by user code outside the package
-		e.top = true
-	}
+	// exported interfaces (stream schedulers) may be implemented by user code; such code cannot reach unexported
+	// SCTP state except through the public API, which is not re-entrant here: assumed not to modify SCTP state
 }
 
 func ifaceExported(t types.Type) bool {
